@@ -12,6 +12,7 @@ import numpy as np
 from common import *
 
 GAMMAS = [F(1), F(3, 4), F(5, 4), F(13, 10)]
+GAMMAS_WIDE = [F(0), F(1, 2), F(7, 8), F(3, 2), F(19, 10)]
 QTYPES = ['sta', 'pos', 'smp', 'gja', 'neg']
 KINDS = ['modularity', 'potts', 'negative_sym', 'negative_asym']
 TOL = 1e-9
@@ -129,10 +130,29 @@ def gain_factor(case):
 
 
 # ---------------------------------------------------------------- generators
-def gen_graph(r, n, directed, signed=False, binary=False):
+class _WR:
+    """random source whose randint(1, wmax) draws a WEIGHT: small integer (default), dyadic fraction k/4, large integer"""
+    def __init__(self, r, mode):
+        self.r, self.mode = r, mode
+
+    def __getattr__(self, name):
+        return getattr(self.r, name)
+
+    def randint(self, a, b):
+        if self.mode == 'dyadic':
+            return F(self.r.randint(1, 10), 4)                  # 1/4 .. 5/2 (exact in binary64, some below 1)
+        if self.mode == 'large':
+            return self.r.randint(1, 1 << 15) if self.r.random() < 0.8 else self.r.randint(1, 4)
+        return self.r.randint(a, b)
+
+
+def gen_graph(r, n, directed, signed=False, binary=False, wmode='int'):
     fam = r.choice(['er', 'er', 'planted', 'planted', 'ring', 'star', 'disconnected', 'complete', 'isolated'])
     wmax = 1 if binary else 4
     W = [[0] * n for _ in range(n)]
+    r0 = r
+    if wmode in ('dyadic', 'large') and not binary:
+        r = _WR(r0, wmode)
 
     def put(i, j, w):
         if i == j:
@@ -189,6 +209,12 @@ def gen_graph(r, n, directed, signed=False, binary=False):
         for i in range(n):
             if r.random() < 0.4:
                 W[i][i] = r.randint(1, wmax)
+    if wmode == 'selfloops' and not binary:   # heavy self-loops: W[u,u] - gamma*k_u^2/s (the entry dq[ma] = 0 overwrites) can be the maximum
+        for i in range(n):
+            if r.random() < 0.6:
+                W[i][i] = r.randint(5, 40)
+    if n == 1 and not W[0][0]:
+        W[0][0] = r.randint(1, wmax)          # a single node: the only possible weight is a self-loop
     if signed:
         p = r.choice([0.0, 0.2, 0.4, 1.0]) if r.random() < 0.3 else r.choice([0.2, 0.35])
         for i in range(n):
@@ -219,7 +245,7 @@ def gen_ci(r, n):
 
 
 def _wit(fn, W, seed, **kw):
-    c = {'fn': fn, 'n': len(W), 'family': 'coq-witness', 'W': W, 'gamma': '1', '_W': W, '_g': F(1), 'seed': seed}
+    c = {'fn': fn, 'n': len(W), 'family': 'coq-witness', 'W': W, 'gamma': '1', '_W': W, '_g': F(1), 'seed': seed, 'weights': 'int'}
     c.update(kw)
     return c
 
@@ -261,26 +287,70 @@ for _k, (_e, _o) in enumerate([(100001, (0, 1, 2, 3)), (300001, (2, 0, 3, 1)), (
 _queue = {}
 
 
+def path_inc(n):
+    """path 0-1-...-(n-1) with weights 1, 2, ..., n-1: the local moving phase needs many sweeps (a merge front that advances
+    a few nodes per sweep): 23..32 sweeps at n = 44 over 40 seeds — above any small `it` bound, far below 1000"""
+    W = [[0] * n for _ in range(n)]
+    for i in range(n - 1):
+        W[i][i + 1] = W[i + 1][i] = i + 1
+    return W
+
+
+IT_GUARDED = ('modularity_louvain_und', 'modularity_louvain_und_sign', 'community_louvain', 'modularity_louvain_dir',
+              'modularity_finetune_und_sign')
+
+
+def jsonable(W):
+    return [[int(x) if F(x).denominator == 1 else float(x) for x in row] for row in W]
+
+
 def make_case(ctx, fn, n=None):
     """a random applicable input for routine fn (None if the draw is outside the routine's domain)"""
-    q = _queue.setdefault((id(ctx), fn), [dict(c) for c in WITNESSES.get(fn, [])])
+    key = (id(ctx), fn)
+    if key not in _queue:
+        _queue[key] = [dict(c) for c in WITNESSES.get(fn, [])]
+        # many-sweep witness for the routines with an `it > 1000` / `h > 1000` guard (quick tier: two of them)
+        if fn in IT_GUARDED and (getattr(ctx, 'thorough', False) or fn in ('modularity_louvain_und', 'community_louvain')):
+            extra = {'family': 'long-sweeps', 'n': 44}
+            if fn == 'community_louvain':
+                extra.update(kind='modularity', directed=False, ci=None, ci_kind='none')
+            if ROUTINES[fn].signed:
+                extra.update(qtype='sta')
+                if fn == 'modularity_finetune_und_sign':
+                    extra.update(ci=None, ci_kind='none')
+            _queue[key].append(_wit(fn, path_inc(44), 7 + len(fn), **extra))
+    q = _queue[key]
     if q and n is None:
         return q.pop(0)
     r = ctx.rng
     R = ROUTINES[fn]
-    n = n or r.randint(3, 9)
+    if n is None:
+        x = r.random()
+        n = r.randint(1, 2) if x < 0.06 else (r.randint(10, 16) if x < 0.18 else r.randint(3, 9))
     case = {'fn': fn, 'n': n}
     kind = None
+    x = r.random()
+    wmode = 'int' if x < 0.55 else 'dyadic' if x < 0.72 else 'large' if x < 0.80 else 'tiny' if x < 0.90 else 'selfloops'
     if fn == 'community_louvain':
         kind = r.choice(KINDS)
         case['kind'] = kind
         directed = r.random() < 0.5
         signed = kind.startswith('negative')
-        W, fam = gen_graph(r, n, directed, signed=signed, binary=(kind == 'potts'))
+        W, fam = gen_graph(r, n, directed, signed=signed, binary=(kind == 'potts'), wmode=wmode)
         case['directed'] = directed
+        if kind == 'potts':
+            wmode = 'int'
     else:
-        W, fam = gen_graph(r, n, R.directed, signed=R.signed)
+        W, fam = gen_graph(r, n, R.directed, signed=R.signed, wmode=wmode)
+    if wmode == 'large' and n > 9:
+        return None                                # keep total weight < 2^23 (see ASSUMES: float gain noise below 1/(20 s))
+    if wmode == 'tiny':
+        # whole matrix scaled by 2^-k: the gains of the und / dir / 'modularity' routines scale with it into the
+        # neighbourhood of the ABSOLUTE threshold 1e-10 (2^-33 = 1.2e-10); exact in binary64, scale-free for the others
+        c = F(1, 1 << r.randint(26, 38))
+        W = [[x * c for x in row] for row in W]
     case['family'] = fam
+    case['weights'] = wmode
     s = sum(map(sum, W))
     if R.signed or (kind or '').startswith('negative'):
         W0, W1, s0, s1 = parts(W)
@@ -291,16 +361,23 @@ def make_case(ctx, fn, n=None):
         case['qtype'] = r.choice(QTYPES) if R.signed else None
     elif s <= 0:
         return None
-    g = r.choice(GAMMAS)
-    case['W'] = W
+    g = r.choice(GAMMAS) if r.random() < 0.75 else r.choice(GAMMAS_WIDE)
+    case['W'] = jsonable(W)
     case['gamma'] = str(g)
     case['_W'] = W
     case['_g'] = g
+    if all(F(x).denominator == 1 for row in W for x in row) and r.random() < 0.15:
+        case['dtype'] = 'int'                      # integer ndarray input (the routines accept it)
     if R.takes_ci:
         ci, how = gen_ci(r, n)
         case['ci'] = ci
         case['ci_kind'] = how
+        if ci is not None and r.random() < 0.1:
+            case['ci_as'] = 'list'                 # a python list instead of an int ndarray
     case['seed'] = r.randrange(1 << 30)
+    if r.random() < 0.03:                          # seed=None: numpy's global state (seeded here so that the case replays)
+        case['global_seed'] = case['seed']
+        case['seed'] = None
     return case
 
 
@@ -314,12 +391,17 @@ def call_impl(case, hierarchy=False, ci_override=None):
     import bct
     from bct.utils import _verif
     fn = case['fn']
-    W = np.array(case['_W'], dtype=float)
+    W = np.array([[float(x) for x in r] for r in case['_W']], dtype=DTYPES[case.get('dtype', 'float')])
     g = float(case['_g'])
-    kw = {'seed': case['seed']}
+    if case['seed'] is None:         # seed=None: the routine draws from numpy's global state (no recording possible)
+        np.random.seed(case['global_seed'])
+        rec = None
+    else:
+        rec = Rec(case['seed'])      # same draws as seed=case['seed']; logs every rng.permutation call of the run
+    kw = {'seed': rec}
     ci0 = ci_override if ci_override is not None else case.get('ci')
     if ROUTINES[fn].takes_ci and ci0 is not None:
-        kw['ci'] = np.array(ci0, dtype=int)
+        kw['ci'] = list(ci0) if case.get('ci_as') == 'list' else np.array(ci0, dtype=int)
     if ROUTINES[fn].signed:
         kw['qtype'] = case['qtype']
     if fn == 'community_louvain':
@@ -340,7 +422,148 @@ def call_impl(case, hierarchy=False, ci_override=None):
     if not ROUTINES[fn].levels:
         levels = [{'moves': cur, 'labels': None, 'q': None}]
     _verif.reset()
+    global LAST_PERMS
+    LAST_PERMS = None if rec is None else [[int(x) for x in e[3]] for e in rec.log if e[0] == 'permutation']
     return ci, q, levels
+
+
+LAST_PERMS = None
+DTYPES = {'float': float, 'int': int, 'float32': np.float32}
+THR = F(1e-10)      # the exact rational value of the double 1e-10 the code compares with
+MAXIT = {'finetune_und': None, 'finetune_dir': None, 'finetune_sign': 1000, 'louvain_und': 1000, 'louvain_sign': 1000,
+         'community_louvain': 1000}
+
+
+def auto_line(case, perms, ci_override=None):
+    """input line of the extracted DECISION-RULE model (Model/ModularitySelect.v): the network, gamma, the threshold, the
+    `it` bound and the recorded permutation stream; the model produces every visit (node, chosen module or none, margin)"""
+    R = ROUTINES[case['fn']]
+    assert R.fn in MAXIT
+    n = case['n']
+    ci0 = ci_override if ci_override is not None else case.get('ci')
+    if ci0 is None:
+        ci0 = list(range(1, n + 1))
+    mx = MAXIT[R.fn]
+    head = ('auto_' + R.fn + ' ' + enc_mat(case['_W'], enc_qb) + ' ' + enc_qb(case['_g']) + ' ' + enc_qb(THR) + ' '
+            + ('1 %d' % mx if mx is not None else '0'))
+    pm = ' %d ' % len(perms) + ' '.join(enc_list(p) for p in perms)
+    if R.fn in ('finetune_und', 'finetune_dir'):
+        return head + ' ' + enc_list(ci0) + pm
+    if R.fn == 'finetune_sign':
+        return head + ' %d ' % QTYPES_IDX[case['qtype']] + enc_list(ci0) + pm
+    if R.fn == 'louvain_und':
+        return head + pm
+    if R.fn == 'louvain_sign':
+        return head + ' %d' % QTYPES_IDX[case['qtype']] + pm
+    return head + ' %d ' % KINDS.index(case['kind']) + enc_list(ci0) + pm
+
+
+def gain_scale(case):
+    """magnitude of the terms the float gain vector is built from (its rounding error is ~1e-16 of that): the total
+    absolute weight for the routines whose gains are homogeneous of degree 1 in W, 1 for the normalised (signed) ones"""
+    fam = ROUTINES[case['fn']].family
+    tot = sum(abs(x) for r in case['_W'] for x in r)
+    if fam in ('und', 'dir') or (fam == 'B' and case['kind'] in ('modularity', 'potts')):
+        return max(tot, F(1, 10 ** 30))
+    return F(1)
+
+
+def compare_auto(case, auto, levels):
+    """model-chosen moves against the accepted moves of the implementation. Returns ('ok' | 'ambiguous' | 'mismatch', text).
+    The exact argmax / threshold test and the float one can only differ where the exact decision is within float noise of
+    flipping: a divergence is forgiven (fallback: the accepted-move replay) iff some visit since the last agreed move has a
+    margin (gap max-threshold or max-runner-up, exact) below 1e-9 * gain scale."""
+    lv, left, out = auto
+    tol = F(1, 10 ** 9) * gain_scale(case)
+    impl = [[(int(d['u']), int(d['mb'])) for d in L['moves']] for L in levels]
+    window = None
+    def amb(extra=None):
+        w = window if extra is None else (extra if window is None else min(window, extra))
+        return w is not None and w <= tol
+    for h in range(max(len(lv), len(impl))):
+        if h >= len(lv) or h >= len(impl):
+            return ('ambiguous' if amb() else 'mismatch'), 'model runs %d levels, implementation %d' % (len(lv), len(impl))
+        mv = impl[h]
+        k = 0
+        for sw in lv[h]:
+            for (u, ch, mg) in sw:
+                mg = dec_q(mg)
+                window = mg if window is None else min(window, mg)
+                if ch is None:
+                    continue
+                if k < len(mv) and mv[k] == (u, ch):
+                    k += 1
+                    window = None
+                    continue
+                return ('ambiguous' if amb() else 'mismatch'), ('level %d: the decision rule moves node %d to module %d (margin %.3g), '
+                        'the implementation\'s next accepted move is %s' % (h + 1, u, ch, float(mg), mv[k] if k < len(mv) else None))
+        if k < len(mv):
+            return ('ambiguous' if amb() else 'mismatch'), ('level %d: the implementation accepted move %s that the decision rule '
+                    'does not make' % (h + 1, mv[k]))
+    if out != 0 or left != 0:
+        return ('ambiguous' if amb() else 'mismatch'), 'outcome %s with %d permutations left over (0 = all sweeps completed)' % (out, left)
+    return 'ok', ''
+
+
+def spectral_capture(f, A, g):
+    """modularity_und / modularity_dir without kci, with the recursion observed from outside: scipy.linalg.eig/eigh are
+    wrapped to log the size of the module of every `recur` call (preorder), bct.algorithms.modularity.ls2ci to capture the
+    final `modules` list. Returns (ci, q, table) with table = [(module, None | final mod_asgn as booleans)] in preorder:
+    the decision oracle of the extracted run_spectral_table."""
+    import scipy.linalg as sl
+    import bct.algorithms.modularity as bm
+    sizes, mods = [], []
+    o_eig, o_eigh, o_ls = sl.eig, sl.eigh, bm.ls2ci
+
+    def w_eig(a, *x, **k):
+        sizes.append(len(a)); return o_eig(a, *x, **k)
+
+    def w_eigh(a, *x, **k):
+        sizes.append(len(a)); return o_eigh(a, *x, **k)
+
+    def w_ls(ls, *x, **k):
+        mods.append([list(map(int, b)) for b in ls]); return o_ls(ls, *x, **k)
+    sl.eig, sl.eigh, bm.ls2ci = w_eig, w_eigh, w_ls
+    try:
+        ci, q = call(f, A, gamma=g, _t=20.0)
+    finally:
+        sl.eig, sl.eigh, bm.ls2ci = o_eig, o_eigh, o_ls
+    if len(mods) != 1:
+        raise ValueError('ls2ci called %d times' % len(mods))
+    leaves = mods[0]
+    pos = [0, 0]
+
+    def parse():
+        s = sizes[pos[0]]; pos[0] += 1
+        if pos[1] < len(leaves) and len(leaves[pos[1]]) == s:
+            lf = leaves[pos[1]]; pos[1] += 1
+            return ('leaf', lf)
+        a = parse(); b = parse()
+        return ('node', a, b)
+
+    def elems(t):
+        return set(t[1]) if t[0] == 'leaf' else elems(t[1]) | elems(t[2])
+    tree = parse()
+    if pos[0] != len(sizes) or pos[1] != len(leaves):
+        raise ValueError('recursion tree does not match the eig calls')
+    table = []
+
+    def walk(t, md):
+        if t[0] == 'leaf':
+            if list(md) != list(t[1]):
+                raise ValueError('leaf %s reached as %s' % (t[1], md))
+            table.append((list(md), None)); return
+        left = elems(t[1])
+        a = [x in left for x in md]
+        table.append((list(md), a))
+        walk(t[1], [x for x in md if x in left]); walk(t[2], [x for x in md if x not in left])
+    walk(tree, list(range(len(A))))
+    return ci, q, table
+
+
+def spectral_line(directed, W, g, table):
+    tb = ' '.join(enc_list(md) + ' ' + ('0' if a is None else '1 ' + enc_list(a, enc_bool)) for md, a in table)
+    return 'spectral %d ' % bool(directed) + enc_mat(W, enc_qb) + ' ' + enc_qb(g) + ' %d ' % len(table) + tb
 
 
 def model_line(case, levels, ci_override=None):
@@ -351,7 +574,7 @@ def model_line(case, levels, ci_override=None):
     if ci0 is None:
         ci0 = list(range(1, n + 1))
     mv = lambda L: ' '.join([str(len(L['moves']))] + ['%d %d' % (int(d['u']), int(d['mb'])) for d in L['moves']])
-    head = R.fn + ' ' + enc_mat(case['_W']) + ' ' + enc_q(case['_g'])
+    head = R.fn + ' ' + enc_mat(case['_W'], enc_qb) + ' ' + enc_qb(case['_g'])
     if R.fn in ('finetune_und', 'finetune_dir'):
         return head + ' ' + enc_list(ci0) + ' ' + mv(levels[0])
     if R.fn == 'finetune_sign':
@@ -385,7 +608,7 @@ def probtune_stream(case, p):
     from bct.utils import _verif
     W = np.array(case['_W'], dtype=float)
     n = case['n']
-    rec = Rec(case['seed'])
+    rec = Rec(case['seed'] if case['seed'] is not None else case['global_seed'])
     kw = {'seed': rec, 'qtype': case['qtype'], 'p': p}
     if case.get('ci') is not None:
         kw['ci'] = np.array(case['ci'], dtype=int)
@@ -418,7 +641,7 @@ def probtune_stream(case, p):
     ci0 = case.get('ci')
     if ci0 is None:
         ci0 = list(range(1, n + 1))
-    line = ('probtune ' + enc_mat(case['_W']) + ' ' + enc_q(case['_g']) + ' %d ' % QTYPES_IDX[case['qtype']] + enc_list(ci0)
+    line = ('probtune ' + enc_mat(case['_W'], enc_qb) + ' ' + enc_qb(case['_g']) + ' %d ' % QTYPES_IDX[case['qtype']] + enc_list(ci0)
             + ' ' + enc_qb(p) + ' ' + enc_list(perm) + ' %d ' % len(draws) + ' '.join(draws) + ' %d ' % len(orc) + ' '.join(orc))
     return ci, q, steps, line
 
@@ -436,7 +659,9 @@ def dec_result(m):
     return {'levels': lv, 'ci': m[1], 'q': dec_q(m[2]), 'qd': dec_q(m[3]), 'qstart': dec_q(m[4])}
 
 
-def close(exact, x, tol=TOL):
+def close(exact, x, tol=TOL, extra=0.0):
+    """|exact - x| <= tol*max(1, |exact|) + extra   (extra: absolute allowance for a float value obtained as a DIFFERENCE of
+    terms much larger than itself, e.g. 1e-13 * total weight for a gain)"""
     try:
         x = float(x)
     except Exception:
@@ -444,7 +669,7 @@ def close(exact, x, tol=TOL):
     if not np.isfinite(x):
         return False
     e = float(exact)
-    return abs(e - x) <= tol * max(1.0, abs(e))
+    return abs(e - x) <= tol * max(1.0, abs(e)) + float(extra)
 
 
 def arr_close(exact_rows, A, tol=TOL):
